@@ -2,6 +2,7 @@ import MaddyVerif.Model.Errors
 import MaddyVerif.Model.ErrorsNextHop
 import MaddyVerif.Model.ErrorsQueueHist
 import MaddyVerif.Model.ErrorsOwn
+import MaddyVerif.Model.ErrorsChecks
 import Driver.Util
 namespace Driver.C16
 open MaddyVerif.Errors Driver
@@ -285,7 +286,85 @@ def showAuthReply (r : AuthReply) : String :=
     | .unsupportedMech => "unsupported"
   s!"{r.code} {r.ench.cls}.{r.ench.subj}.{r.ench.det} {t}"
 
+/-! ### verdicts of checks: DMARC, fail actions (round 8) -/
+
+def parsePolicy : Char → Option Policy
+  | 'n' => some .none
+  | 'q' => some .quarantine
+  | 'r' => some .reject
+  | _ => none
+
+def parseRec (s : String) : Option RecLookup :=
+  match s with
+  | "nx" => some .noRecord
+  | "multi" => some .noRecord
+  | "tmp" => some .tempDNS
+  | "tmpo" => some .tempDNS
+  | "err" => some .otherErr
+  | "bad" => some .otherErr
+  | _ =>
+    match s.toList with
+    | [w, p, sp] => do
+        let atOrg ← if w == 'd' then some false else if w == 'o' then some true else none
+        let p ← parsePolicy p
+        let sp ← if sp == '-' then some none else some <$> parsePolicy sp
+        pure (.record atOrg p sp)
+    | _ => none
+
+def parseIdRes (s : String) : Option (Option IdRes) :=
+  if s == "-" then some none else
+  match s.toList with
+  | [v, a] => do
+      let v ← match v with
+        | 'p' => some AuthVal.pass
+        | 'f' => some .fail
+        | 't' => some .tempError
+        | 'n' => some .other
+        | 'e' => some .other
+        | _ => none
+      let a ← if a == 'a' then some true else if a == 'x' then some false else none
+      pure (some ⟨v, a⟩)
+  | _ => none
+
+def parseActKind : String → ActKind
+  | "reject" => .reject
+  | "quarantine" => .quarantine
+  | "ignore" => .ignore
+  | _ => .invalid
+
+/-- the harness' line: the value handed to the endpoint through both conversions, then the reply on the wire -/
+def showVerdict (utf8 : Bool) : Verdict → String
+  | .accepted q => "ok q=" ++ b01 q ++ " || wire ok q=" ++ b01 q
+  | .refused e =>
+    let r := wrapErr (!utf8) e
+    -- a basic code that is not 4yz / 5yz cannot be spoken on the wire as a failure: the harness does not try
+    showGood e ++ " || wire " ++ (if r.code < 400 || r.code > 599 then "unspeakable" else showReply r)
+
+def handleChk : List String → Option String
+  | ["dmarc", utf8, _defer, lk, spf, dkim] => do
+      let lk ← parseRec lk
+      let spf ← parseIdRes spf
+      let dkim ← parseIdRes dkim
+      pure (showVerdict (utf8 == "1") (dmarcVerdict lk spf dkim))
+  | "act" :: utf8 :: _defer :: _stage :: action :: nargs :: code :: ench :: msg :: ";" :: reason => do
+      let n ← nargs.toNat?
+      let m ← unhexRunes? msg
+      let e : Option Ench := match ench.splitOn "." with
+        | [a, s, d] => do pure ⟨← a.toNat?, ← s.toNat?, ← d.toNat?⟩
+        | _ => none
+      let r ← match reason with
+        | ["ok"] => some none
+        | toks => match parseErr toks with
+          | some (e, []) => some (some e)
+          | _ => none
+      match parseAction (parseActKind action) ⟨n, code.toNat?, e, m.isEmpty⟩ m with
+      | none => pure "cfgerr"
+      | some fa => pure (showVerdict (utf8 == "1") (failActionVerdict fa r))
+  | _ => none
+
 def handle : List String → String
+  | "dmarc" :: rest => (handleChk ("dmarc" :: rest)).getD "bad-op"
+  | "act" :: rest => (handleChk ("act" :: rest)).getD "bad-op"
   | "wrap" :: mang :: rest =>
     match parseErr rest with
     | some (e, []) => showReply (wrapErr (mang == "1") e)
